@@ -33,3 +33,9 @@ Example C01_tie :
   let es := entries [(0%float, 500%float); (1000%float, 250%float)] (Some 2000%float) in
   length es = 2%nat /\ bpm_of es = 120%float /\ bpm_of (rev es) = 120%float.
 Proof. vm_compute. repeat split. Qed.
+
+(* the model of bpm() (whose order independence is C01_bpm_any_iteration_order) transcribes the
+   comparator that is in the source now: re-read by the translator on every run *)
+Theorem C01_bpm_facts_now : forallb snd Tables.bpm_facts = true /\ (3 <= length Tables.bpm_facts)%nat.
+Proof. exact tables_bpm_facts. Qed.
+Print Assumptions C01_bpm_facts_now.
